@@ -35,6 +35,7 @@ var _ = vl.Less
 func vJSON(c *Stack[int]) containers.VJSON {
 	return containers.VJSON{C: c, ToJSON: c.ToJSON, FromJSON: c.FromJSON,
 		Marshal: func() ([]byte, error) { return json.Marshal(c) },
+		Unmarshal: func(data []byte) error { return json.Unmarshal(data, c) },
 		Inv:     func() { v.Assert(c.list != nil, "inv-list"); singlylinkedlist.VInv(c.list) },
 		Step:    func() { x := v.Int("sx"); c.Push(x); y, ok := c.Peek(); v.Assert(v.And(ok, y == x), "C12:push-after-load") },
 		Fresh:   func() containers.VJSON { return vJSON(New[int]()) },
